@@ -90,6 +90,15 @@ def run_system(args):
                               'cls': type(e).__name__})
         inbox = [Box(N + 1 + k) for k in range(K)]
 
+        class Relay:
+            """A bound method as the bound callable; its owner is referenced by the binding only."""
+
+            def __init__(self, box):
+                self.box = box
+
+            def put(self, e):
+                self.box(e)
+
         class Detacher(Box):
             """On every event it receives, detaches the listener bound right after it on the same sender."""
 
@@ -132,6 +141,8 @@ def run_system(args):
                 if op == 'bind':
                     t = h['a']
                     target = runs[t - 1].interp if t <= N else (inbox[t - N - 1] if t <= N + K else Detacher(i))
+                    if N < t <= N + K and (tid + len(handles[i])) % 2 == 0:
+                        target = Relay(target).put
                     handles[i].append(r.interp.bind(target))
                 else:
                     r.interp.detach(handles[i].pop(h['a'] - 1))
